@@ -26,6 +26,20 @@ def run(tier, seed, args):
     wd = vlib.workdir("C16")
     exe = vlib.build_harness()
     deep = tier == "thorough"
+    # (A) design-level model of the transfer loops under short transfers and one fault; the seeded loop variants must fail
+    mc = []
+    for loop, expect_ok in (("asbuilt", True), ("single_read", False), ("swallow", False)):
+        for n, dl in ((6, 4), (5, 5), (4, 0), (5, 9)) if deep else ((6, 4), (4, 0)):
+            cfg = os.path.join(wd, f"chunk_{loop}_{n}_{dl}.cfg")
+            vlib.write_cfg(cfg, spec="Spec", constants={"N": n, "DevLen": dl, "Loop": f'"{loop}"'}, invariants=["ChunkingIrrelevant", "FaultSurfaces"])
+            r = vlib.tlc_mc("ChunkSpec", cfg, os.path.join(wd, f"chunk_{loop}_{n}_{dl}.out"), workers=2, timeout=300)
+            ok = r["violated"] is None
+            mc.append({"loop": loop, "N": n, "DevLen": dl, "holds": ok, "states": r["distinct"]})
+            if ok and not expect_ok and dl == 0:
+                continue          # with nothing to read the variants coincide with the loop as built
+            if ok != expect_ok:
+                raise vlib.ToolError(f"ChunkSpec: loop '{loop}' (N={n}, DevLen={dl}) expected {'to hold' if expect_ok else 'to be violated'}")
+    v.cov["chunk_model"] = mc
     ps = c16_programs(seed, tier)
     pp = os.path.join(wd, "progs.ndjson")
     with open(pp, "w") as f:
